@@ -46,7 +46,7 @@ func opFrame(a []string) string {
 	total := d + p
 	ref := mkShards(d, p, size, seed)
 	refEnc, _ := newEnc(fam, d, p, "-")
-	if op != "enc" && op != "idx" {
+	if op != "enc" && op != "idx" && op != "encw" {
 		if err := refEnc.Encode(ref); err != nil {
 			return "err(encode) " + errClass(err)
 		}
@@ -86,6 +86,9 @@ func opFrame(a []string) string {
 		}
 		sh[i] = arena[r.off : r.off+r.length : r.off+r.capacity]
 		copy(sh[i], ref[i])
+		if (op == "enc" || op == "encw") && i >= d {
+			copy(sh[i], fill(seed^0x5bd1e995, 4000+i, size)) // stale parity: Encode must overwrite
+		}
 	}
 	// Update needs separate new-data buffers, also guarded
 	var newData [][]byte
@@ -110,6 +113,16 @@ func opFrame(a []string) string {
 	copy(given, sh)
 	var callErr error
 	switch op {
+	case "encw":
+		// the encoder has served a LARGER shard size before (pooled work buffers are longer than needed now)
+		big := mkShards(d, p, atoi(args[0]), seed+7)
+		if err := enc.Encode(big); err != nil {
+			return "err(warm) " + errClass(err)
+		}
+		if ok, err := enc.Verify(big); err != nil || !ok {
+			return "err(warm-verify)"
+		}
+		callErr = enc.Encode(sh)
 	case "enc":
 		callErr = enc.Encode(sh)
 	case "ver":
